@@ -134,6 +134,10 @@ def g_gmm(draw):
     # the count below which a component is not updated (mean_var_update_threshold): default, or a value that single
     # blocks stay under while the whole data set does not
     c["count_floor"] = gen.choice(draw, [EPS, EPS, EPS, 1e-6, 1e-2, 0.3])
+    # rows selected by a lazy boolean mask: shape and chunk sizes unknown until computed (GMM training accepts that)
+    # (k-means refuses such arrays with Dask's own "chunk sizes are unknown" error: not with a k-means initialisation)
+    c["unknown_chunks"] = (len(c["fchunks"]) == 1 and 0 not in c["chunks"] and not c["init_by_kmeans"]
+                           and gen.choice(draw, [False, False, True]))
     if c["trainer"] == "map":
         c["upd"] = [c["upd"][0], False, c["upd"][2]]  # KF-1 (MAP variance blend) is C05's business
     return c
@@ -190,7 +194,11 @@ def c_gmm(ctx, case):
     s = case["sched"]
     with sched.owned(s["order"], s["seed"], s["isolate"]) as ex:
         n0 = guard.steps()
-        d = gmm(case, thr).fit(darr(X, case["chunks"], case["fchunks"]))
+        if case.get("unknown_chunks"):
+            ctx.event("dask array with unknown chunk sizes")
+            d = gmm(case, thr).fit(sut.dask_rows(X, case["chunks"], unknown=True))
+        else:
+            d = gmm(case, thr).fit(darr(X, case["chunks"], case["fchunks"]))
         iters_d = guard.steps() - n0
     pd = sut.params_of(d)
     note(ctx, case, case["cap"], ("trainer:" + case["trainer"], "kmeans-init" if case["init_by_kmeans"] else None,
